@@ -54,6 +54,10 @@ CHECKS = {
             "Every ordered pair of segments over the 5x5 lattice (thorough 6x6) including zero-length operands: None / SinglePoint(proper iff interior to both) / Collinear with the exact shared sub-segment, improper point bit-identical to the endpoint, proper point within 4 ulp of the exact rational crossing and in both bounding boxes, agreement with Line::intersects, invariance under swapping and reversing the operands; plus one endpoint ranging over every point of ulp windows around nearly-parallel, touching, collinear-overlap and 2^52-magnitude configurations against exact big-integer classification.",
             "Bounding-box containment of proper points is asserted with a 4-ulp slack (reading of 'within a few ulps'; measured 1 ulp from the nearest-endpoint fallback).",
             "DESIGN.md §4 C11"),
+    "C14": ("E1-grid", "bounded exhaustive enumeration of closed coordinate sequences (valid or not), hole placements and polygon pairs vs a literal transcription of the property on the exact arrangement",
+            "Every closed coordinate sequence with 1..5 free vertices over the 3x3 lattice as a shell; four shells x every closed 3-/4-vertex sequence over the 4x4 window as a hole; a 6x4 shell with every (simple triangle, arbitrary 3-sequence) pair of holes; every ordered pair of simple lattice polygons as a MultiPolygon; {0,1,NaN,+inf,-inf}^4 in every geometry type. is_valid must equal the oracle, validation_errors must be empty iff valid, and every reported error must name a ring/member that really has the defect.",
+            "Polygons valid by the wording of C14 but with a disconnected interior are dropped (counted). Error truth is not judged when a ring it names is itself malformed (counted).",
+            "DESIGN.md §4 C14"),
 }
 
 NOT_YET = "check not built yet in this round (planned: bounded exhaustive exploration, see DESIGN.md §4)"
